@@ -243,6 +243,10 @@ def _canonical_scheme(prog, f):
         if t and len(t) == 3 and isinstance(a.value, ast.Call) and dump(a.value.func) == "%s.evalfn" % prob and t != gtrip:
             for nm, canon in zip(t, ("prop_obj", "prop_ineqcv", "prop_eqcv")):
                 role.setdefault(nm, canon)
+    # the same hand-over written as three plain assignments (the model reads `a, b, c = x, y, z` as that sequence)
+    for a in assigns:
+        if isinstance(a.targets[0], ast.Name) and isinstance(a.value, ast.Name) and a.value.id in gtrip and a.targets[0].id not in gtrip:
+            role.setdefault(a.targets[0].id, ("best_obj", "best_ineqcv", "best_eqcv")[gtrip.index(a.value.id)])
     inv = {v: k for k, v in role.items()}
     if not all(k in inv for k in ("best_obj", "prop_obj", "best_ineqcv", "prop_eqcv")):
         return None
@@ -874,7 +878,34 @@ def check_bridge(prog, rep):
         ups = [c for c in ast.walk(f.node) if isinstance(c, ast.Call) and isinstance(c.func, ast.Attribute) and c.func.attr == "update" and c.args
                and isinstance(c.args[0], ast.DictComp)]
         stores = [n for n in ast.walk(f.node) if isinstance(n, ast.Subscript) and isinstance(n.ctx, ast.Store) and isinstance(n.value, ast.Name) and n.value.id == f.params()[2]]
-        if not ups or stores:
+        if stores:
+            # explicit stores out["F"] = obj ...: each key receives the component of `a, b, c = self.evalfn(...)` that stands at its position (F, G, H) = (0, 1, 2)
+            pos = {}
+            for st in ast.walk(f.node):
+                if isinstance(st, ast.Assign) and isinstance(st.targets[0], ast.Tuple) and isinstance(st.value, ast.Call) and isinstance(st.value.func, ast.Attribute) \
+                        and st.value.func.attr == "evalfn" and all(isinstance(e, ast.Name) for e in st.targets[0].elts):
+                    for i_, e in enumerate(st.targets[0].elts):
+                        pos.setdefault(e.id, set()).add(i_)
+            decided = True
+            for st in ast.walk(f.node):
+                if not (isinstance(st, ast.Assign) and len(st.targets) == 1 and st.targets[0] in stores):
+                    continue
+                key = st.targets[0].slice.value if isinstance(st.targets[0].slice, ast.Constant) else None
+                want = {"F": 0, "G": 1, "H": 2}.get(key)
+                got = pos.get(st.value.id) if isinstance(st.value, ast.Name) else None
+                if want is None or got is None or len(got) != 1:
+                    decided = False
+                    continue
+                if got != {want}:
+                    rep.violate(R, f.qualname, "out[%r] receives component %d of evalfn's result (%s), not component %d: pymoo judges and reports the solution on another quantity than "
+                                "a fresh evaluation gives" % (key, sorted(got)[0], st.value.id, want), where(f, st), "component %d" % want, st.value.id)
+                else:
+                    rep.ok(R, "%s#store-%s" % (f.qualname, key), "out[%r] = component %d of self.evalfn(...)" % (key, want))
+            if not decided or not pos:
+                rep.unrec(R, f.qualname, "results are handed over by stores the rule cannot trace to the components of evalfn's result")
+            if not ups:
+                continue
+        elif not ups:
             rep.unrec(R, f.qualname, "results are not handed over by out.update({key: val for key, val in zip([...], ...)}) (another formulation)")
             continue
         for c in ups:
